@@ -22,7 +22,7 @@ import zlib
 from vlib import core
 
 META = {
-    "disabled": True,
+    "disabled": False,
     "level": "translation_validation",
     "level_text": "specs/MpqFormat.tla is an executable reference implementation of the MPQ V1/V2 on-disk format written from "
                   "docs/src/formats/archives/mpq.md and the public format description (not from the Rust code), evaluated by TLC, with all "
